@@ -18,7 +18,7 @@ RULE = ("seeded invocations from every rejection class (no source; a missing sou
 ASSUMPTIONS = ["a --glob pattern that matches nothing is not claimed as a rejection class (the code documents it as a FIXME and the statement speaks of a missing source)"]
 
 CLASSES = ["no-source", "missing-source", "dir-without-r", "multi-to-absent", "multi-to-file", "dir-onto-file-dest", "dir-onto-file-mapped",
-           "same-as-dest", "noclobber-force", "T-with-target-directory", "multi-with-T", "bad-driver", "bad-reflink", "bad-backup", "bad-glob", "bad-blocksize", "glob-multi-to-nondir", "target-directory-nondir", "bad-workers", "dangling-source", "dirlink-without-r"]
+           "same-as-dest", "noclobber-force", "T-with-target-directory", "multi-with-T", "bad-driver", "bad-reflink", "bad-backup", "bad-glob", "bad-blocksize", "glob-multi-to-nondir", "target-directory-nondir", "bad-workers", "dangling-source", "dirlink-without-r", "nondir-onto-dir-mapped"]
 
 
 def gen_cases(tier, seed):
@@ -189,6 +189,17 @@ def gen_cases(tier, seed):
             pos = min(pos, len(srcs))
             srcs.insert(pos, "ldir")
             opts = []
+        elif cls == "nondir-onto-dir-mapped":
+            # the converse of dir-onto-file-mapped: a file, a link (also one to a directory, copied as a link) or a FIFO whose
+            # destination path is an existing directory
+            what = r.choice(["file", "file", "link", "dirlink", "fifo"])
+            spec += [{"file": {"p": "athing", "k": "f", "size": 7, "seed": 3, "segs": None}, "link": {"p": "athing", "k": "l", "target": "v0"},
+                      "dirlink": {"p": "athing", "k": "l", "target": "somedir"}, "fifo": {"p": "athing", "k": "fifo"}}[what], {"p": "somedir", "k": "d"}]
+            srcs.insert(pos, "athing")
+            dstate = "thing-is-dir"
+            if r.random() < 0.2:
+                srcs, dstate = ["athing"], "T-onto-dir"
+                opts += ["-T"]
         elif cls == "bad-blocksize":
             opts += ["--block-size", r.choice(["12XB", "-5", "abc", "0", "0", "0KB"])]
         pre = []
@@ -208,6 +219,10 @@ def gen_cases(tier, seed):
                     pre.append({"p": "dst/realdir", "k": "d"})
                 if collide_kind == "link-to-file":
                     pre.append({"p": "dst/old", "k": "f", "size": 9, "seed": 6, "segs": None})
+        if dstate == "thing-is-dir":
+            pre += [{"p": "dst", "k": "d"}, {"p": "dst/athing", "k": "d"}, {"p": "dst/athing/inside", "k": "f", "size": 3, "seed": 9, "segs": None}]
+        elif dstate == "T-onto-dir":
+            pre += [{"p": "dst", "k": "d"}, {"p": "dst/inside", "k": "f", "size": 3, "seed": 9, "segs": None}]
         if cls in ("no-source",) and dstate == "absent":
             pass
         drv = [] if cls == "bad-driver" else ["--driver", driver]
@@ -218,7 +233,7 @@ def gen_cases(tier, seed):
             noise = []
         wopt = [] if cls == "bad-workers" else ["-w", str(r.choice([0, 1, 4]))]
         args = drv + wopt + opts + noise + srcs + ([dest] if dest is not None else [])
-        yield {"spec": spec, "pre": pre, "args": args, "driver": driver, "cls": cls + (":directory-into-itself" if cls == "same-as-dest" and which == "inside" else ""), "pos": pos if cls in ("missing-source", "dir-without-r", "dir-onto-file-mapped", "bad-glob", "dangling-source") else -1,
+        yield {"spec": spec, "pre": pre, "args": args, "driver": driver, "cls": cls + (":directory-into-itself" if cls == "same-as-dest" and which == "inside" else ""), "pos": pos if cls in ("missing-source", "dir-without-r", "dir-onto-file-mapped", "bad-glob", "dangling-source", "nondir-onto-dir-mapped") else -1,
                "nsrc": len(srcs), "dstate": dstate, "fs": "ext4"}
 
 
